@@ -142,7 +142,7 @@ public:
         else
         {
             image tmp(img);
-            swap(tmp);
+            swap_all(tmp);
         }
         return *this;
     }
@@ -155,7 +155,7 @@ public:
         else
         {
             image tmp(img);
-            swap(tmp);
+            swap_all(tmp);
         }
         return *this;
     }
@@ -179,6 +179,19 @@ public:
           lhs._allocated_bytes = boost::exchange(rhs._allocated_bytes, 0);
           lhs._view = boost::exchange(rhs._view, image::view_t{});
       };
+
+      // Exchanges the complete state of two images, allocators included. Used with a temporary
+      // that is about to be destroyed, so that every block is released by the allocator that obtained it,
+      // whatever propagate_on_container_swap says.
+      void swap_all(image& img)
+      {
+          using std::swap;
+          swap(_align_in_bytes,  img._align_in_bytes);
+          swap(_memory,          img._memory);
+          swap(_view,            img._view);
+          swap(_alloc,           img._alloc);
+          swap(_allocated_bytes, img._allocated_bytes);
+      }
 
       void move_assign(image& img, propagate_allocators) noexcept {
           // non-sticky allocator, can adopt the memory, fast
@@ -279,7 +292,7 @@ public:
         else
         {
             image tmp(dims, alignment);
-            swap(tmp);
+            swap_all(tmp);
         }
     }
 
@@ -313,7 +326,7 @@ public:
         else
         {
             image tmp(dims, p_in, alignment);
-            swap(tmp);
+            swap_all(tmp);
         }
     }
 
@@ -348,7 +361,7 @@ public:
         else
         {
             image tmp(dims, alignment, alloc_in);
-            swap(tmp);
+            swap_all(tmp);
         }
     }
 
@@ -382,7 +395,7 @@ public:
         else
         {
             image tmp(dims, p_in, alignment, alloc_in);
-            swap(tmp);
+            swap_all(tmp);
         }
     }
 
